@@ -100,4 +100,23 @@ theorem EngineImpl_sound_C02_once {rules : List RuleSpec} (hok : RulesOk rules)
     simp only [Option.bind] at hrB
     exact (C02_once rest m1 m' hrB hb).1
 
+/-- **C05 / C07 for the transliterated engine: nothing is left behind.**  After ANY history of the
+concrete model — builds that succeed, fail on a cycle, or are cancelled at any event or hook point —
+the engine is quiescent: no task exists, every work queue is empty, no task is outstanding, no rule
+is being scanned or left with a scan verdict, no deferred completion is parked, and the stored
+iteration equals the engine's epoch (so a restart never goes back in time).  Together with
+`EngineImpl_sound_C01` for the builds that follow, this is "cancellation never leaks work or poisons
+later builds" for every schedule and cancellation point. -/
+theorem EngineImpl_sound_C05_quiescent {rules : List RuleSpec} (hok : RulesOk rules)
+    (ops : List Op) (hh : histOk ops (opProgram rules {})) :
+    let s := runOps ops (opProgram rules {})
+    s.taskInfos = [] ∧ s.ruleInfosToScan = [] ∧ s.inputRequests = [] ∧ s.finishedInputRequests = [] ∧
+    s.readyTaskInfos = [] ∧ s.finishedTaskInfos = [] ∧ s.numOutstandingUnfinishedTasks = 0 ∧
+    s.numRulesBeingScanned = 0 ∧ s.pendingDeferred = [] ∧ s.buildActive = false ∧
+    s.store.iteration = s.currentEpoch ∧
+    (∀ k ri, s.ruleInfos.lookup k = some ri → ri.state = .incomplete ∨ ri.state = .complete) := by
+  obtain ⟨_, _, _, _, h⟩ := refinement_final hok ops hh
+  exact ⟨h.noTasks, h.noScanQ, h.noInputQ, h.noFinQ, h.noReady, h.noFinTasks, h.noOutstanding, h.noScanning,
+    h.noDeferred, h.notActive, h.iterEq, h.states⟩
+
 end LLBuild.Refine
